@@ -207,6 +207,61 @@ def itransTol (xMin xMax : Rat) : Rat := (1 / 10 ^ 10) * (xMax - xMin)
 def inverseTransform (findRoot : (Rat → Rat) → Rat → Rat → Rat → Rat) (cdf : Rat → Rat) (g : G) (xMin xMax : Rat) : Rat × G :=
   (findRoot (fun x => (sampleUniform u01 g 0 1).1 - cdf x) xMin xMax (itransTol xMin xMax), (sampleUniform u01 g 0 1).2)
 
+/-! ### Parameter guards (fix d65f15f): requests outside the parameter range stop with a diagnostic
+
+  `Sample_Uniform` (x_max < x_min), `Sample_Gauss` (standard_deviation < 0) and `Sample_Poisson`
+  (expectation_value < 0) test their parameters BEFORE the first draw; rejection sampling and Metropolis inherit the
+  guards through the `Sample_Uniform` / `Sample_Gauss` calls they make.  An error value carries no generator: a
+  rejected request consumes no randomness that a caller could observe (the process exits).  The boundary cases
+  `x_min = x_max`, `sigma = 0`, `mean = 0` are meaningful, exactly as coded.  The unguarded functions above are the
+  bodies that run when the guards pass (`…G_ok` theorems), so every theorem about them carries over. -/
+
+inductive ParamErr where
+  | emptyDomain      -- Sample_Uniform: x_max < x_min
+  | negativeSigma    -- Sample_Gauss: standard_deviation < 0
+  | negativeMean     -- Sample_Poisson: expectation_value < 0
+  deriving DecidableEq, Repr
+
+def sampleUniformG (g : G) (a b : Rat) : Except ParamErr (Rat × G) :=
+  if b < a then .error .emptyDomain else .ok (sampleUniform u01 g a b)
+
+def sampleGaussG (gq : Rat → Rat → Rat → Rat) (g : G) (mu sigma : Rat) : Except ParamErr (Rat × G) :=
+  if sigma < 0 then .error .negativeSigma else .ok (sampleGauss u01 gq g mu sigma)
+
+def samplePoissonG (exp : Rat → Rat) (rnd : Rat → Rat) (step : Rat) (rf fuel : Nat) (g : G) (lam : Rat) : Except ParamErr (Option (Nat × G)) :=
+  if lam < 0 then .error .negativeMean else .ok (samplePoisson u01 exp rnd step rf fuel g lam)
+
+/-- the vector overload stops at the first negative mean (earlier entries have been sampled; the process exits) -/
+def samplePoissonListG (exp : Rat → Rat) (rnd : Rat → Rat) (step : Rat) (rf fuel : Nat) (g : G) (lams : List Rat) : Except ParamErr (Option (List Nat × G)) :=
+  if lams.any (fun l => decide (l < 0)) then .error .negativeMean else .ok (samplePoissonList u01 exp rnd step rf fuel g lams)
+
+/-- `Rejection_Sampling`: the first trial calls `Sample_Uniform(xMin,xMax)` and `Sample_Uniform(0,yMax)` -/
+def rejectionG (pdf : Rat → Rat) (xMin xMax yMax : Rat) (g : G) : Except ParamErr (Except RejErr (Rat × Nat × G)) :=
+  if xMax < xMin ∨ yMax < 0 then .error .emptyDomain else .ok (rejection u01 pdf xMin xMax yMax g)
+
+def rejection2G (pdf : Rat → Rat → Rat) (xMin xMax yMin yMax zMax : Rat) (g : G) : Except ParamErr (Except RejErr ((Rat × Rat) × Nat × G)) :=
+  if xMax < xMin ∨ yMax < yMin ∨ zMax < 0 then .error .emptyDomain else .ok (rejection2 u01 pdf xMin xMax yMin yMax zMax g)
+
+/-- `Sample_Metropolis`: a bounded start draws `Sample_Uniform(lo,hi)`; an unbounded start and every step draw
+    `Sample_Gauss(·, sigma)` (no step, no Gaussian: a bounded call with `i_max = 0` never tests `sigma`) -/
+def metropolis1G (gq : Rat → Rat → Rat → Rat) (pdf : Rat → Rat) (sigma : Rat) (sample thin burn : Nat)
+    (dom : Option (Rat × Rat)) (g : G) : Except ParamErr (List Rat × G) :=
+  match dom with
+  | some (lo, hi) =>
+    if hi < lo then .error .emptyDomain
+    else if sigma < 0 ∧ 0 < burn + thin * sample then .error .negativeSigma
+    else .ok (metropolis1 u01 gq pdf sigma sample thin burn dom g)
+  | none => if sigma < 0 then .error .negativeSigma else .ok (metropolis1 u01 gq pdf sigma sample thin burn dom g)
+
+def metropolis2G (gq : Rat → Rat → Rat → Rat) (pdf : Rat → Rat → Rat) (s1 s2 : Rat) (sample thin burn : Nat)
+    (dom : Option Dom2) (g : G) : Except ParamErr (List (Rat × Rat) × G) :=
+  match dom with
+  | some d =>
+    if d.x1 < d.x0 ∨ d.y1 < d.y0 then .error .emptyDomain
+    else if (s1 < 0 ∨ s2 < 0) ∧ 0 < burn + thin * sample then .error .negativeSigma
+    else .ok (metropolis2 u01 gq pdf s1 s2 sample thin burn dom g)
+  | none => if s1 < 0 ∨ s2 < 0 then .error .negativeSigma else .ok (metropolis2 u01 gq pdf s1 s2 sample thin burn dom g)
+
 end Generic
 
 /-! ## Driver side: rational test densities shared with harness/c18.cpp, replay with recorded candidates -/
